@@ -215,7 +215,7 @@ func runEdDSA(c *mon.Ctx, d *sigs.EdDSA) {
 	}
 	for si, i := range sel {
 		t := triples[i]
-		allBits := c.Thorough() || si == 0 || (t.h.name == "mimc" && t.m.cls == "1-elements")
+		allBits := c.Thorough() || si == 0
 		e.tamper(t.k, t.h, t.m, t.sig, other, allBits)
 	}
 
@@ -412,6 +412,18 @@ func (e *edEnv) decide(cls string, pk signature.PublicKey, sig, msg []byte, h hc
 	desc := func() string {
 		return fmt.Sprintf("class=%s hash=%s A=(%s,%s) sig=%s msg=%s", cls, h.name, x.Text(16), y.Text(16), hx(sig), hx(msg))
 	}
+	// oracle self-check on a deterministic sample: the simultaneous evaluation of the equation must agree with the two-sided one
+	if (dec.Reason == "equation-holds" || dec.Reason == "equation-fails") && (dec.Accept || len(sig) > 3 && sig[3]%8 == 0) {
+		if R, s, why := e.p.ParseSig(sig); why == "" {
+			if k, err := e.p.Challenge(h.new(), R, pt(x, y), msg); err == nil {
+				if d2 := e.p.EquationPlain(pt(x, y), R, s, k); !d2.Undef && d2.Accept != dec.Accept {
+					c.Inconclusive("%s: the two evaluations of the verification equation disagree in the oracle on %s", N, desc())
+					return
+				}
+				c.AddExtra("oracle_equation_cross_checks", 1)
+			}
+		}
+	}
 	var ok bool
 	var err error
 	sigIn, msgIn := append([]byte(nil), sig...), append([]byte(nil), msg...)
@@ -435,7 +447,7 @@ func (e *edEnv) tamper(k edKey, h hcfg, m msgCase, sig []byte, other edKey, allB
 	c, N, nb := e.c, e.N, e.nb
 	c.Current(N + " tamper " + h.name + "/" + m.cls)
 	// signature bits
-	pos := positions(e.rng, len(sig)*8, c.Pick(64, 256), allBits)
+	pos := positions(e.rng, len(sig)*8, c.Pick(40, 256), allBits)
 	par(len(pos), func(i int) {
 		b := pos[i]
 		part := "R"
@@ -446,7 +458,7 @@ func (e *edEnv) tamper(k edKey, h hcfg, m msgCase, sig []byte, other edKey, allB
 	})
 	c.AddExtra("eddsa_sig_bit_flips", int64(len(pos)))
 	// message bits (all for short messages)
-	mpos := positions(e.rng, len(m.m)*8, c.Pick(48, 256), false)
+	mpos := positions(e.rng, len(m.m)*8, c.Pick(32, 256), false)
 	par(len(mpos), func(i int) { e.decide("msg-bit-flip", k.pk, sig, flipBit(m.m, mpos[i]), h) })
 	if h.block == 0 {
 		e.decide("msg-extended", k.pk, sig, append(append([]byte(nil), m.m...), 0), h)
@@ -462,7 +474,7 @@ func (e *edEnv) tamper(k edKey, h hcfg, m msgCase, sig []byte, other edKey, allB
 	}
 	// public key bits: decode the mutated encoding with the library, compare with the strict decoder, then verify under it
 	pb := k.pk.Bytes()
-	kpos := positions(e.rng, len(pb)*8, c.Pick(64, 256), allBits)
+	kpos := positions(e.rng, len(pb)*8, c.Pick(40, 256), allBits)
 	par(len(kpos), func(i int) {
 		mut := flipBit(pb, kpos[i])
 		if pk2, ok := e.decodePub("pk-bit-flip", mut); ok {
